@@ -193,8 +193,9 @@ def u2_files(sc, root: str) -> dict:
             return f"def {n}(from_d{t}: int) -> int:\n    ...\n"
         base = "(Exception)" if sc.get("variant") == "exccls" and t == 1 else ""
         return f"class {n}{base}:\n    def m_d{t}(self) -> int:\n        ...\n\n    def _helper{s}(self) -> int:\n        ...\n"
-    files = {f"{sid}/__init__.py": "", f"{sid}/sub/__init__.py": "", f"{sid}/sub/deep/__init__.py": "", f"{sid}/other/__init__.py": "",
-             f"{sid}/other/fill.py": "def fill" + s + "() -> int:\n    ...\n",
+    other = "_other" if sc.get("variant") == "privreexp" else "other"      # the sibling package is a private one
+    files = {f"{sid}/__init__.py": "", f"{sid}/sub/__init__.py": "", f"{sid}/sub/deep/__init__.py": "", f"{sid}/{other}/__init__.py": "",
+             f"{sid}/{other}/fill.py": "def fill" + s + "() -> int:\n    ...\n",
              f"{sid}/sub/deep/{nm['m1']}.py": decl(1), f"{sid}/sub/{nm['m2']}.py": decl(2)}
     if sc.get("variant") == "sharedbase":    # both classes in one module, derived from one private class with a public method
         files[f"{sid}/sub/deep/{nm['m1']}.py"] = (f"class _Base{s}:\n    def m_shared(self, from_base: int) -> int:\n        ...\n\n"
@@ -230,7 +231,7 @@ def u2_files(sc, root: str) -> dict:
             line = "import logging\n"
         if sc.get("variant") == "samemodule":      # the module as a whole
             line = f"from {'.'.join([root, sid, 'sub', 'deep'])} import {nm['m1']}\n"
-        files["/".join([sid, *AT_PATH[e["at"]], "__init__.py"])] += line
+        files["/".join([sid, *([other] if e["at"] == 3 else AT_PATH[e["at"]]), "__init__.py"])] += line
     return files
 
 
@@ -256,7 +257,7 @@ def u2_observe(sc, stubs: Stubs, rootname: str, idx: dict | None = None) -> dict
                 shown = d.pyname.replace(mark, "")
                 if sc.get("variant") == "suffixalias":      # the specification calls the two declarations declone / decltwo
                     shown = {"tail": "declone", "big_tail": "decltwo"}.get(shown, shown)
-                occs[tgt].append({"home": [seg.replace(mark, "") for seg in file_home(f, rootname, sid)], "name": shown,
+                occs[tgt].append({"home": [("other" if seg == "_other" and sc.get("variant") == "privreexp" else seg.replace(mark, "")) for seg in file_home(f, rootname, sid)], "name": shown,
                                   "members": [m.pyname for m in d.members if not m.pyname.startswith("_")],
                                   "privmembers": [m.pyname.replace(mark, "") for m in d.members if m.pyname.startswith("_") and not m.pyname.startswith("__")]})
     jp = {1: "absent", 2: "absent"}
